@@ -102,6 +102,8 @@ def histories_for(pid, tier):
             for n in range(1, nmax):
                 out.append((k, ins(n) + ['clear', 'is_empty', 'insert', 'get_value']))
                 out.append((k, ins(n) + ['clear', 'insert', 'insert', 'pred_read']))
+        for k in ('map', 'set', 'key'):
+            out.append((k, ['insert_asc'] * 7 + ['clear', 'insert', 'insert'] + (['is_empty'] if k == 'key' else ['pred_delete', 'get_value']), 0))
         for n in range(1, nmax):
             out.append(('key', ins(n) + ['clear', 'is_empty', 'insert', 'get_value']))
             out.append(('key', ins(n) + ['first_less', 'clear', 'insert', 'first_less_or_equal']))
@@ -117,6 +119,8 @@ def histories_for(pid, tier):
                 out.append((k, ['insert'] if cap else [], cap))       # base case new(capacity hint)
             out.append((k, ['insert_asc'] * 9 + (['is_empty'] if k == 'key' else ['get_value']), 0))      # arena growth from the default 8 slots (ascending keys)
             out.append((k, ins(3), 1))
+            # arena exactly full (7 entries in the default 8 slots), then clear and reuse
+            out.append((k, ['insert_asc'] * 7 + ['clear', 'insert', 'insert'] + (['is_empty'] if k == 'key' else ['get_value']), 0))
     # de-duplicate
     seen = set()
     res = []
